@@ -103,3 +103,129 @@ Proof.
 Qed.
 Theorem gm_iter_no_panic : forall txt, gm_iter txt <> Panic.
 Proof. intros txt. apply iter_lines_no_panic. Qed.
+
+(* ---------- malformed_rejected for the Go manifest package: if Extract reports no error (and the text is inside the
+   model), every non-blank line is structurally well-formed ---------- *)
+From AV Require Import proofs.C10_bytes_proofs proofs.C10_pdh_proofs.
+
+Lemma go_locator_no_colon tok : go_locator tok = true -> contains_char c_colon tok = false.
+Proof.
+  unfold go_locator, locator_with. intros H. rewrite <- (join_split c_plus tok).
+  destruct (split_on c_plus tok) as [|h [|sz hints]]; try discriminate.
+  apply andb_prop in H. destruct H as [H Hhints]. apply andb_prop in H. destruct H as [H Hsz].
+  apply andb_prop in H. destruct H as [_ Hhex].
+  unfold all_digits in Hsz. apply andb_prop in Hsz. destruct Hsz as [_ Hd].
+  rewrite join_cons. cbn [map sconcat]. rewrite !contains_app.
+  rewrite (all_chars_no is_hex c_colon h eq_refl Hhex), (all_chars_no is_digit c_colon sz eq_refl Hd).
+  cbn [sep1 contains_char orb]. replace (Ascii.eqb c_plus c_colon) with false by reflexivity. cbn [orb].
+  induction hints as [|h1 hs IH]; [reflexivity|].
+  cbn [forallb] in Hhints. apply andb_prop in Hhints. destruct Hhints as [H1 H2].
+  cbn [map sconcat]. rewrite !contains_app. rewrite (IH H2), orb_false_r.
+  cbn [sep1 contains_char]. replace (Ascii.eqb c_plus c_colon) with false by reflexivity. cbn [orb].
+  unfold is_hint in H1. destruct h1 as [|a r]; [discriminate|]. apply andb_prop in H1. destruct H1 as [Ha Hr].
+  cbn [contains_char]. rewrite (all_chars_no is_hintc c_colon r eq_refl Hr), orb_false_r.
+  destruct (Ascii.eqb a c_colon) eqn:E; [|reflexivity]. apply Ascii.eqb_eq in E. subst a. discriminate.
+Qed.
+Lemma lenient_digits s : all_digits s = true -> lenient_num s = Some (dec_val s).
+Proof.
+  intros H. unfold lenient_num. destruct s as [|a r]; [discriminate|].
+  assert (Hd : is_digit a = true) by (unfold all_digits in H; cbn in H; apply andb_prop in H; destruct H as [H _]; exact H).
+  replace (Ascii.eqb a "+"%char) with false by (destruct (Ascii.eqb a "+"%char) eqn:E; [apply Ascii.eqb_eq in E; subst a; discriminate|reflexivity]).
+  replace (Ascii.eqb a "-"%char) with false by (destruct (Ascii.eqb a "-"%char) eqn:E; [apply Ascii.eqb_eq in E; subst a; discriminate|reflexivity]).
+  rewrite H. reflexivity.
+Qed.
+Lemma go_locator_wf tok : go_locator tok = true -> wf_locator tok = Some (loc_size tok).
+Proof.
+  unfold go_locator, locator_with, wf_locator, loc_size. intros H.
+  destruct (split_on c_plus tok) as [|h [|sz hints]]; try discriminate.
+  apply andb_prop in H. destruct H as [H _]. apply andb_prop in H. destruct H as [_ Hsz].
+  apply lenient_digits. exact Hsz.
+Qed.
+Lemma gm_ftok_wf tok p n nm : gm_parse_ftok tok = Some (p, n, nm) ->
+  wf_ftok tok = Some (p, n) /\ contains_char c_colon tok = true.
+Proof.
+  unfold gm_parse_ftok, wf_ftok, splitn3. intros H.
+  destruct (cut_at c_colon tok) as [[a r]|] eqn:E1; [|discriminate].
+  destruct (cut_at_spec _ _ _ _ E1) as [Htok _].
+  split.
+  - destruct (cut_at c_colon r) as [[b r']|]; [|discriminate].
+    unfold parse_uint64 in H.
+    destruct (all_digits a) eqn:Ea; [|discriminate]. destruct (dec_val a <? 2 ^ 64)%N; [|discriminate].
+    destruct (all_digits b) eqn:Eb; [|discriminate]. destruct (dec_val b <? 2 ^ 64)%N; [|discriminate].
+    injection H as <- <- _. rewrite (lenient_digits _ Ea), (lenient_digits _ Eb). reflexivity.
+  - rewrite Htok, contains_app. cbn [contains_char]. rewrite Ascii.eqb_refl. cbn [orb]. apply orb_true_r.
+Qed.
+
+Lemma span_go_nocolon toks : forall blocks ftoks, span_go_locators toks = (blocks, ftoks) ->
+  Forall (fun t => contains_char c_colon t = true) ftoks ->
+  span_nocolon toks = (blocks, ftoks) /\ map_opt wf_locator blocks = Some (sizes_of blocks).
+Proof.
+  induction toks as [|t r IH]; intros blocks ftoks H Hf; cbn in H.
+  - injection H as <- <-. split; reflexivity.
+  - destruct (go_locator t) eqn:E.
+    + destruct (span_go_locators r) as [a b] eqn:Er. injection H as <- <-.
+      destruct (IH a b eq_refl Hf) as [Hs Hm].
+      split.
+      * cbn [span_nocolon]. rewrite (go_locator_no_colon _ E), Hs. reflexivity.
+      * cbn [map_opt sizes_of map]. rewrite (go_locator_wf _ E). fold (sizes_of a). rewrite Hm. reflexivity.
+    + injection H as <- <-. split; [|reflexivity].
+      inversion Hf as [|? ? Hc _]; subst. cbn [span_nocolon]. rewrite Hc. reflexivity.
+Qed.
+
+Lemma gm_parse_wf line s : gm_parse_stream line = GpOk s -> String.eqb line "" = false -> wf_line line = true.
+Proof.
+  unfold gm_parse_stream, wf_line. intros H Hne.
+  destruct (split_on c_sp line) as [|t0 rest] eqn:Es; [discriminate|].
+  destruct (negb (String.eqb (gm_unescape t0) "." || has_prefix "./" (gm_unescape t0))) eqn:En; [discriminate|].
+  assert (Ht0 : String.eqb t0 "" = false).
+  { destruct (String.eqb t0 "") eqn:E; [|reflexivity]. apply String.eqb_eq in E. subst t0. cbn in En. discriminate. }
+  rewrite Ht0. cbn [negb andb].
+  destruct (span_go_locators rest) as [blocks ftoks] eqn:Esp.
+  destruct blocks as [|b0 blocks]; [discriminate|].
+  destruct (negb (forallb (fun b => (loc_size b <? 2 ^ 63)%N) (b0 :: blocks))); [discriminate|].
+  destruct (negb (small_total (sizes_of (b0 :: blocks)))); [discriminate|].
+  destruct ftoks as [|f0 ftoks]; [discriminate|].
+  destruct (map_opt gm_parse_ftok (f0 :: ftoks)) as [fts|] eqn:Em; [|discriminate].
+  destruct (forallb (fun '(p, n, _) => go_range_ok (sizes_of (b0 :: blocks)) p n) fts) eqn:Er; [|discriminate].
+  clear H.
+  (* every file token has a colon and is well-formed *)
+  assert (Hall : Forall (fun t => contains_char c_colon t = true) (f0 :: ftoks) /\
+                 map_opt wf_ftok (f0 :: ftoks) = Some (map (fun '(p, n, _) => (p, n)) fts)).
+  { clear Er Esp. revert fts Em. induction (f0 :: ftoks) as [|t l IHl]; intros fts Em; cbn in Em.
+    - injection Em as <-. split; [constructor|reflexivity].
+    - destruct (gm_parse_ftok t) as [[[p n] nm]|] eqn:Et; [|discriminate].
+      destruct (map_opt gm_parse_ftok l) as [fl|] eqn:El; [|discriminate]. injection Em as <-.
+      destruct (gm_ftok_wf _ _ _ _ Et) as [Hw Hc]. destruct (IHl fl eq_refl) as [Hf Hm].
+      split; [constructor; assumption|]. cbn [map_opt map]. rewrite Hw, Hm. reflexivity. }
+  destruct Hall as [Hcol Hwf].
+  destruct (span_go_nocolon rest _ _ Esp Hcol) as [Hsn Hml].
+  rewrite Hsn, Hml, Hwf.
+  apply forallb_forall. intros [p n] Hin. apply in_map_iff in Hin. destruct Hin as ([[p' n'] nm] & Heq & Hin).
+  injection Heq as <- <-. rewrite forallb_forall in Er. specialize (Er _ Hin). cbn in Er.
+  pose proof (map_opt_forall gm_parse_ftok (fun t => let '(p, n, _) := t in (p < 2 ^ 64)%N /\ (n < 2 ^ 64)%N)
+                ltac:(intros x [[a b] c] Hx; eapply gm_parse_ftok_lt; eauto) _ _ Em) as Hlt.
+  rewrite Forall_forall in Hlt. specialize (Hlt _ Hin). cbn in Hlt. destruct Hlt as [Hp Hn].
+  destruct (go_range_ok_nowrap _ _ _ Hp Hn Er) as [_ Hle].
+  apply orb_true_iff. right. apply N.leb_le. exact Hle.
+Qed.
+
+Lemma segment_lines_wf : forall ls files m, segment_lines ls files = Ok m ->
+  Forall (fun l => String.eqb l "" = false) ls -> forallb wf_line ls = true.
+Proof.
+  induction ls as [|l ls IH]; intros files m H Hne; [reflexivity|]. cbn [segment_lines] in H.
+  inversion Hne as [|? ? Hl Hrest]; subst.
+  destruct (gm_parse_stream l) as [s| |] eqn:E; try discriminate.
+  destruct (segment_fts s _ (g_fts s) [] files) as [files'|]; [|discriminate].
+  cbn [forallb]. rewrite (gm_parse_wf _ _ E Hl), (IH _ _ H Hrest). reflexivity.
+Qed.
+
+(* malformed_rejected_gomanifest *)
+Theorem gm_extract_wf : forall txt src reloc out, gm_extract txt src reloc = Ok out ->
+  forallb wf_line (gm_lines txt) = true.
+Proof.
+  intros txt src reloc out H. unfold gm_extract, gm_segment in H.
+  destruct (segment_lines (gm_lines txt) []) as [m| | |] eqn:E; try discriminate.
+  eapply segment_lines_wf; [exact E|].
+  unfold gm_lines. apply Forall_forall. intros l Hin. apply filter_In in Hin. destruct Hin as [_ Hl].
+  destruct (String.eqb l ""); [discriminate|reflexivity].
+Qed.
